@@ -324,3 +324,78 @@ func genE2E(c *ctx) {
 		c.emit(T("e2e", ty, A(codecs[i%3]), I(int64(bs)), vals, fl))
 	}
 }
+
+// ---- large blocks: payloads around and above the container reader's 1 MiB read chunk ----
+
+func init() { props["BIG"] = prop{gen: genBIG, exec: execBIG} }
+
+func execBIG(op string, a []sx) sx {
+	codec, size, nrec := a[0].atom, int(a[1].int()), int(a[2].int())
+	var buf bytes.Buffer
+	e, err := avro.NewEncoderFor[recB](&buf, avro.Compression(codec), 1<<30)
+	if err != nil {
+		return T("writeerr", A(clean(err.Error())))
+	}
+	mk := func(i int) []byte {
+		n := size / nrec
+		if i == nrec-1 {
+			n = size - (nrec-1)*(size/nrec)
+		}
+		b := make([]byte, n)
+		for j := range b {
+			b[j] = byte(j*31 + i*7)
+			if codec != "null" && j%97 != 0 {
+				b[j] = byte(i) // compressible, so that the stored block size differs from the payload size
+			}
+		}
+		return b
+	}
+	for i := 0; i < nrec; i++ {
+		if err := e.Encode(&recB{B: mk(i)}); err != nil {
+			return T("writeerr", A(clean(err.Error())))
+		}
+	}
+	if err := e.Flush(); err != nil {
+		return T("writeerr", A(clean(err.Error())))
+	}
+	// a second, small block after the big one
+	e.Encode(&recB{B: []byte("tail")})
+	e.Flush()
+	file := buf.Bytes()
+	got := 0
+	bad := -1
+	rerr := avro.ReadFile(bufio.NewReader(bytes.NewReader(file)), &recB{}, func(val unsafe.Pointer, rb *avro.ResourceBank) error {
+		r := (*recB)(val)
+		want := []byte("tail")
+		if got < nrec {
+			want = mk(got)
+		}
+		if !bytes.Equal(r.B, want) && bad < 0 {
+			bad = got
+		}
+		got++
+		rb.Close()
+		return nil
+	})
+	if rerr != nil {
+		return T("err", A(clean(rerr.Error())), I(int64(got)))
+	}
+	if bad >= 0 {
+		return T("mismatch", I(int64(bad)))
+	}
+	return T("ok", I(int64(got)), I(int64(len(file))))
+}
+
+func genBIG(c *ctx) {
+	sizes := []int{1<<20 - 40, 1<<20 - 1, 1 << 20, 1<<20 + 1, 3 << 19, 2<<20 + 17}
+	if c.thorough {
+		sizes = append(sizes, 5<<20+3, 1<<23)
+	}
+	for _, codec := range []string{"null", "deflate", "snappy"} {
+		for _, s := range sizes {
+			for _, nrec := range []int{1, 7} {
+				c.emit(T("e2e-big", A(codec), I(int64(s)), I(int64(nrec))))
+			}
+		}
+	}
+}
